@@ -237,6 +237,8 @@ class Program:
                 logs[name] += inline.restore_renamed_attributes(trees[name], name)
             for name, extra in inline.restore_cross_module(trees).items():
                 logs[name] = logs.get(name, []) + extra
+            for name in trees:
+                logs[name] = logs.get(name, []) + inline.restore_inlined(trees[name], name)
         for name, text in sources.items():
             rel = name.replace('.', '/') + ('.py' if name != 'yatiml' else '/__init__.py')
             self.modules[name] = ModuleInfo(name, text, rel, trees.get(name), logs.get(name))
